@@ -51,13 +51,14 @@ RULE = ("random ADMGs with 2-6 nodes (isolated nodes, bidirected-only nodes, bow
         "plus direct calls of the helpers. A case is non-trivial when the graph has >=3 nodes and the run reaches one of "
         "lines 4, 6, 9, 10 (recorded from the algorithm's own debug log).")
 ASSUMPTIONS = [
-    "trso_sound (estimand = P*(y|do(x)) in every compatible family) is proved only for the base case (line 1) and stated "
-    "as OPEN for the recursion; the clause rests on the correspondence + exact multi-domain oracle",
-    "trso_no_surrogate (verdict = ID's verdict when no experiment is usable) is proved only as: without source domains the "
-    "run never leaves the target domain and never reads a source experiment; equality with the ID model is OPEN "
-    "(the `id` family's model is a separate development) and is checked against the real identify_outcomes on every case",
-    "absence of exceptions: the model makes every raise explicit and the theorem classifies the reachable error kinds; that "
-    "none of them is reachable from identify_target_outcomes on valid input is checked by the correspondence, not proved",
+    "trso_sound (estimand = P*(y|do(x)) in every compatible family) is OPEN: only 'line 1 is marginalisation of the carried "
+    "distribution' (line1_den) is proved; the clause rests on the correspondence + exact multi-domain oracle",
+    "trso_no_surrogate_iff_id (verdict = ID's verdict when no experiment is usable) is OPEN; proved is only that without "
+    "declared experiments every leaf is a target observational term (trso_no_domains_target_only); the verdict is compared "
+    "with the real identify_outcomes on every no-surrogate case",
+    "trso_no_internal_error is OPEN: the model makes every raise explicit and trsoF_error_internal / identify_trichotomy "
+    "classify the outcomes; that no internal error is reachable from identify_target_outcomes on valid input (including "
+    "that the recursion budget Query.fuel suffices) is checked by the correspondence, not proved",
     "the rule placing selection nodes, (De(Z_i) - W_i) u (C(W_i) - An(W_i) in G[bar Z_i]), is taken from the paper as "
     "restated in the docstring and re-implemented independently in the oracle; families differ from the target only in "
     "the mechanisms (kernels given parents and latents) at marked nodes",
@@ -242,8 +243,21 @@ def _well_formed(e):
     return True
 
 
+def _corpus_dir():
+    """extra witnesses dropped into corpus/C05/*.json (a case or a list of cases per file)"""
+    import glob
+    import os
+    out = []
+    for f in sorted(glob.glob(os.path.join(str(C.VERIF), "corpus", PROP, "*.json"))):
+        d = json.load(open(f))
+        out += d if isinstance(d, list) else [d]
+    return out
+
+
 def cases(rng: random.Random, tier: str):
     out = [json.loads(json.dumps(c)) for c in CORPUS]
+    seen = {json.dumps(c, sort_keys=True) for c in out}
+    out += [c for c in _corpus_dir() if json.dumps(c, sort_keys=True) not in seen]
     n_rand, n_pert, n_mal, n_help = {"quick": (6000, 2500, 200, 2500), "escalated": (16000, 7000, 400, 6000)}.get(
         tier, (60000, 25000, 1000, 15000))
     for _ in range(n_rand):
@@ -766,25 +780,36 @@ import atexit  # noqa: E402
 atexit.register(_report)
 
 MANIFEST = {
-    "text": ("Partial proof. Lean theorems about the executable model of transport.py (Y0.Model.Trso, tied to the code by "
-             "the correspondence check on every run): the recursion is total and classifies every failure (an estimand, "
-             "'no estimand', or one of a fixed list of characterised exceptions); fuel monotonicity (a run that ends "
-             "gives the same result with any larger budget); the selection-diagram construction is characterised "
-             "set-theoretically (create_transport_diagram adds exactly one parentless selection node per marked variable "
-             "and nothing else; get_nodes_to_transport = (De(Z)-W) u (C(W)-An(W) in G[bar Z])); the vocabulary invariant "
-             "of C06 is carried through the recursion (every leaf of a returned estimand is target-observational or a "
-             "declared source domain under a subset of its experiments, no selection node in any leaf or Sum range); "
-             "without source domains the run never reads a source experiment; soundness is proved for line 1 "
-             "(marginalisation) only. NOT proved: soundness of the recursion in every compatible SCM family (stated as "
-             "OPEN), equality of the no-surrogate verdict with ID, and that no exception is reachable on valid input - "
-             "these clauses rest on the correspondence plus the exact-rational multi-domain oracle, which evaluates "
-             "every returned estimand at every value assignment on random compatible families."),
-    "note": ("Trusted: Lean kernel; axioms propext/Classical.choice/Quot.sound; the hand-written models of transport.py, "
-             "dsl.py constructors and canonicalize tied to the code by sampling (estimands compared structurally, then by "
-             "exact evaluation because Python iterates hash-ordered sets); Spec/Scm + Spec/FamilySpec (what a compatible "
-             "family is); the selection-node rule is the paper's as restated in the docstring. Defects found and fixed on "
-             "branch fix-transport are listed in known_findings.jsonl; their witnesses stay in the corpus."),
-    "technique": ("Lean 4 theorems (induction on the recursion budget, syntactic invariants of the DSL constructors) + "
-                  "differential correspondence with the real identify_target_outcomes + exact-rational multi-domain SCM "
-                  "oracle + m-separation by path enumeration + comparison with identify_outcomes"),
+    "text": ("Partial proof. Lean theorems about the executable model of transport.py (Y0.Model.Trso / TrDsl, tied to the code "
+             "by the correspondence check on every run; 16 theorems in Props/C05 + 19 in Props/C06Transport): "
+             "(1) totality and error taxonomy - the recursion is structural on an explicit budget and every outcome is an "
+             "estimand, 'no estimand' or an INTERNAL error (trsoF_error_internal); identify_target_outcomes raises the "
+             "documented ValueError exactly on invalid input (identify_invalid_iff) and otherwise obeys the trichotomy "
+             "estimand / no estimand / internal error (identify_trichotomy); "
+             "(2) selection diagrams - create_transport_diagram adds exactly one parentless selection node T_v -> v per marked "
+             "variable and nothing else; get_nodes_to_transport returns exactly (De(Z)-W) u (C(W)-An(W) in G[bar Z]) and is "
+             "defined whenever Z, W are inside the graph; "
+             "(3) vocabulary, the transport clause of C06 (trso_vocab) - every leaf of a returned estimand is a target "
+             "observational term over plain variables or a term of a DECLARED source domain whose variables all carry the "
+             "same non-empty subscript set, a subset of that domain's declared experiments; no leaf and no Sum range mentions "
+             "a selection node; without declared experiments only target terms occur (trso_no_domains_target_only); "
+             "(4) semantics - Sum.safe denotes the iterated sum and line 1 is marginalisation of the carried distribution "
+             "(den_sumSafe, line1_den). NOT proved (stated as OPEN in Props/C05.lean): soundness of the recursion in every "
+             "compatible SCM family (trso_sound), equality of the no-surrogate verdict with ID's, and that no internal error "
+             "is reachable on valid input. These clauses are decided on every run by the correspondence plus the "
+             "exact-rational multi-domain oracle, which evaluates every returned estimand at every value assignment on two "
+             "random compatible families, by comparison with identify_outcomes on every no-surrogate case, and by treating "
+             "any exception on valid input as a violation. Four defects found by this check were repaired on branch "
+             "fix-transport (known_findings.jsonl); their witnesses stay in the corpus."),
+    "note": ("Trusted: Lean kernel; axioms propext/Classical.choice/Quot.sound; the hand-written models of transport.py, of the "
+             "dsl.py constructors it calls and of canonicalize, tied to the code by sampling (estimands compared "
+             "structurally, then by exact evaluation because Python iterates hash-ordered sets and because the DSL's "
+             "tie-breaking is the `expr` family's subject); Spec/Scm + Spec/FamilySpec (what a compatible family is); the rule "
+             "placing selection nodes is the paper's as restated in the docstring; are_d_separated is modelled as the "
+             "moralisation test (for TRSO's calls - conditioning on X in the graph without edges into X - it coincides with "
+             "m-separation, checked against path enumeration on every run)."),
+    "technique": ("Lean 4 theorems (induction on the recursion budget, syntactic invariants of the DSL constructors, "
+                  "set-theoretic characterisation via the C14 graph lemmas) + differential correspondence with the real "
+                  "identify_target_outcomes + exact-rational multi-domain SCM oracle + m-separation by path enumeration + "
+                  "comparison with identify_outcomes"),
 }
